@@ -58,6 +58,9 @@ func ClassifyNATFeature(addresses []string, localIPs []string) (*NatFeature, err
 		if err != nil {
 			return nil, err
 		}
+		if err := validateIPPort(ip, portNum); err != nil {
+			return nil, fmt.Errorf("address [%s]: %v", addr, err)
+		}
 		if slices.Contains(localIPs, ip) {
 			natFeature.PublicNetwork = true
 		}
@@ -105,6 +108,34 @@ func ClassifyNATFeature(addresses []string, localIPs []string) (*NatFeature, err
 		}
 	}
 	return natFeature, nil
+}
+
+func validateIPPort(ip string, port int) error {
+	if net.ParseIP(ip) == nil {
+		return fmt.Errorf("invalid ip")
+	}
+	if port < 1 || port > 65535 {
+		return fmt.Errorf("port out of range")
+	}
+	return nil
+}
+
+// ValidateAddrs checks that every address is an IP literal with a port in 1..65535.
+func ValidateAddrs(addrs []string) error {
+	for _, addr := range addrs {
+		ip, port, err := net.SplitHostPort(addr)
+		if err != nil {
+			return err
+		}
+		portNum, err := strconv.Atoi(port)
+		if err != nil {
+			return err
+		}
+		if err := validateIPPort(ip, portNum); err != nil {
+			return fmt.Errorf("address [%s]: %v", addr, err)
+		}
+	}
+	return nil
 }
 
 func ClassifyFeatureCount(features []*NatFeature) (int, int, int) {
